@@ -87,6 +87,11 @@ def trimValue (r : Bytes) : Bytes :=
   let r1 := if r.getLast? = some 13 then r.dropLast else r
   (r1.reverse.dropWhile isOWS).reverse
 
+/-- `normalizeHeaderValue` on a multi-line region: CR/LF removed, HTAB at a line start → SP, then blanks (SP / HTAB)
+in front and at the end dropped -/
+def foldedValue (region : Bytes) : Bytes :=
+  (((normValAux false region).dropWhile isOWS).reverse.dropWhile isOWS).reverse
+
 inductive Scan where
   | fin (consumed : Nat)
   | needMore
@@ -116,8 +121,7 @@ def scanNext (disableNorm : Bool) (B : Bytes) : Scan :=
         let nEnd := n1 + extra
         let region := trimValue (B1.take nEnd)
         -- multi-line value: CR/LF removed, tab at a line start → space, blanks in front and at the end dropped
-        let value := if extra > 0 then
-            (((normValAux false region).dropWhile (· == 32)).reverse.dropWhile isOWS).reverse else region
+        let value := if extra > 0 then foldedValue region else region
         .kv key value (B1.drop (nEnd + 1)) (n + 1 + sp + nEnd + 1)
 
 /-- `bytesconv.ParseUintBuf` with Go's 64-bit `int`: `(value, consumed)` or an error -/
